@@ -291,7 +291,9 @@ class Exec:
                 a, b = st_then.get_comp(name), self.st.get_comp(name)
                 if ident(a, b):
                     continue
-                self.oblige("emit@%d.final.%s" % (line, name), comp_eq(name, a, b), ["C09"], line, "emit")
+                also = {"allocated": ["C04"], "claimed": ["C03"], "released": ["C07"], "closed": ["C08"]}.get(ftype, [])
+                self.oblige("emit@%d.final.%s" % (line, name), comp_eq(name, a, b),
+                            ["C09"] + [t for t in also if t in self.con.tags], line, "emit")
 
     def finish_normal(self, result):
         self.p.exit = ("return", result)
@@ -378,6 +380,22 @@ class Exec:
             raise PyRaise(v)
         if isinstance(s, ast.Try):
             return self.exec_try(s, env)
+        if isinstance(s, ast.With) and len(s.items) == 1 and s.items[0].optional_vars is None:
+            # `with db:` - sqlite3's connection context manager: commit when the block completes, roll back (not
+            # modelled) when it raises
+            cm = self.eval(s.items[0].context_expr, env)
+            if isinstance(cm, VOpt):
+                self.require(Not(cm.is_none), "AttributeError", s)
+                cm = cm.val
+            if not isinstance(cm, VConn):
+                raise Unsupported("with-statement over %r at %s:%d" % (cm, self.mod, s.lineno))
+            try:
+                self.exec_block(s.body, env)
+            except PyRaise:
+                raise Unsupported("exception inside `with <connection>:` (rollback is not modelled) at %s:%d" % (self.mod, s.lineno))
+            from . import builtins as B
+            B.call_bound(self, cm, "commit", [], {}, s)
+            return
         if isinstance(s, ast.For):
             return self.exec_for(s, env)
         if isinstance(s, ast.FunctionDef):
@@ -734,6 +752,16 @@ class Exec:
             return VClass(e.id)
         if e.id == "Exception":
             return VClass("Exception")
+        if ".<locals>." in self.qual:
+            # a free variable of a closure that its contract does not declare, assigned in the enclosing function:
+            # some number or None (what the enclosing function computed is not known here)
+            try:
+                outer = self.src.func(self.qual.split(".<locals>.")[0])
+            except Exception:
+                outer = None
+            if outer is not None and any(isinstance(n, ast.Name) and n.id == e.id and isinstance(n.ctx, ast.Store)
+                                         for n in ast.walk(outer)):
+                return VOpt(Const("free.%s.isnone" % e.id, BOOL), VZ(Const("free.%s" % e.id, REAL), "real"))
         try:
             fd = self.src.func("%s.%s" % (self.mod, e.id))      # a module-level helper function: executed in place
         except Exception:
@@ -774,6 +802,11 @@ class Exec:
         if isinstance(obj, VNamed):
             return obj.fields[a]
         if isinstance(obj, VExc):
+            if a not in obj.fields:
+                if a == "args":
+                    return VTuple([])
+                self.require(BoolVal(False), "AttributeError", e)
+                raise Unsupported("exception object has no attribute %s at %d" % (a, e.lineno))
             return obj.fields[a]
         if isinstance(obj, VCursor) and a == "lastrowid":
             return VZ(obj.lastrowid, "int")
@@ -1138,6 +1171,14 @@ class Exec:
         # log.* : skipped, arguments not evaluated (A12)
         if isinstance(e.func, ast.Attribute) and isinstance(e.func.value, ast.Name) \
                 and e.func.value.id == "log" and "log" not in env:
+            # log.* has no effect (A12), but computing its arguments can raise: they are evaluated where the engine
+            # can evaluate them (an unsupported expression there is skipped, not a reason to give up the function)
+            for a_ in list(e.args) + [k_.value for k_ in e.keywords]:
+                saved_pc, saved_obl = len(self.p.pc), len(self.p.obls)
+                try:
+                    self.eval(a_, env)
+                except Unsupported:
+                    del self.p.obls[saved_obl:]
             return VConst(None)
         root = e.func
         while isinstance(root, ast.Attribute):
@@ -1407,6 +1448,9 @@ class Exec:
         if self.last_clock is not None:
             self.assume(t >= self.last_clock)   # A15
         self.last_clock = t
+        if hasattr(self, "call_results"):
+            self.call_results.setdefault("time.time@first", t)       # ghost: the first clock read of this run
+            self.call_results["time.time@last"] = t
         # A15: clock reads do not decrease, and every arrival time in the database is an earlier
         # clock read (census: `added` only ever receives the event's clock read)
         ms = self.st.t("ch.mailbox_sides")
